@@ -171,6 +171,132 @@ pub fn part_c03_inlined(tier: Tier) -> Part {
     part
 }
 
+/// C11: the end of the program reached by a STEP (not by `continue`), then restart.
+pub fn part_c11_step_into_exit(tier: Tier) -> Part {
+    use crate::corpus::{Config, Stmt};
+    let mut part = Part::new("e2e-exit-by-step-then-restart");
+    part.rule = "histories [break at a statement of main, break at one of the last four instructions of main, start, continue, stepi until the step reports the end of the process, restart, continue, continue, (drop)] judged by the E2 oracle of C11: the restarted program must stop at the first breakpoint again (reference trace index), then at the second, then end with the native exit code and output, and no process is left; second program: a breakpoint ON the instruction that makes the exit system call, then continue / stepi, then restart or drop".into();
+    let cfgs = if tier == Tier::Quick { vec![Config::default_cfg()] } else { vec![Config::default_cfg(), Config { toolchain: "stable".into(), opt: 1, dwarf: 5, pie: false }] };
+    let progs = match crate::corpus::build_many(&[vec![Stmt::Assign, Stmt::CallF]], &cfgs).and_then(prepare) {
+        Ok(p) => p,
+        Err(e) => {
+            part.violate("C11:machinery:corpus", e, json!({}));
+            part.exhaustive = false;
+            return part;
+        }
+    };
+    let oracles = oracles_for("C11");
+    for p in &progs {
+        let n = p.trace.steps.len();
+        let Some(first) = p.line_of("s0.assign").and_then(|l| p.stmt_addrs(l).into_iter().find(|a| p.in_trace(*a))) else {
+            part.violate("C11:machinery:no-first-breakpoint", p.name(), json!({}));
+            continue;
+        };
+        // the last instructions of the program that belong to a function with debug information
+        // (what follows main is `_start`: assembly without any, where an address breakpoint is not
+        // within the property)
+        let Some(last_in_fn) = (0..n).rev().find(|j| p.dref.func_at(p.trace.steps[*j].pc.wrapping_sub(p.base)).is_some()) else { continue };
+        for back in 0..4usize {
+            if last_in_fn < back + 2 {
+                continue;
+            }
+            let j = last_in_fn - back;
+            let k = n - j; // single steps from there until the last instruction has been executed
+            let near_end = p.trace.steps[j].pc;
+            if near_end == first || p.trace.steps.iter().filter(|s| s.pc == near_end).count() != 1 || k > 12 {
+                continue;
+            }
+            let cands = vec![Cand::Addr(first), Cand::Addr(near_end)];
+            let mut path = vec![Action::Add(0), Action::Add(1), Action::Start, Action::Continue];
+            for _ in 0..k {
+                path.push(Action::Stepi);
+            }
+            let k = k - 1;
+            path.extend([Action::Restart, Action::Continue, Action::Continue]);
+            let (_, out) = run_session(p, &cands, &path, false);
+            part.states += path.len() as u64;
+            part.transitions += path.len() as u64;
+            part.evaluations += 1;
+            part.traces_validated += 1;
+            let replay = json!({"engine":"e2e","prop":"C11","exe":p.built.exe,"cands":cands,"path":path,"history":path.iter().map(|a| a.label(&cands)).collect::<Vec<_>>()});
+            match out {
+                WorkerOutcome::Ok(res) => {
+                    let (models, findings) = interpret(p, &cands, &path, &res, &oracles, "C11");
+                    for f in findings {
+                        part.violate(f.sig, f.detail, replay.clone());
+                    }
+                    // the history must really have gone the intended way: exit inside the steps,
+                    // stop at the first breakpoint after the restart
+                    let exited_by_step = models.get(4 + k).map(|m| m.exited).unwrap_or(false) && !models.get(3 + k).map(|m| m.exited).unwrap_or(true);
+                    let after_restart = models.get(5 + k).map(|m| m.idx).unwrap_or(None);
+                    let want = p.trace.steps.iter().position(|s| s.pc == first);
+                    if !exited_by_step {
+                        part.violate("C11:machinery:exit-not-reached-by-the-last-step", format!("[{}] k={k}: states {:?}", p.name(), models.iter().map(|m| (m.exited, m.idx)).collect::<Vec<_>>()), replay.clone());
+                    } else if after_restart != want {
+                        part.violate("C11:restart-after-exit-by-step:first-breakpoint-not-reached", format!("[{}] k={k}: after the restart the program is at trace index {after_restart:?}, the first breakpoint is reached at {want:?}", p.name()), replay.clone());
+                    } else {
+                        part.distinct_nontrivial += 1;
+                    }
+                    if part.samples.len() < 2 {
+                        part.sample(json!({"program": p.name(), "k": k, "history": path.iter().map(|a| a.label(&cands)).collect::<Vec<_>>(), "positions": models.iter().map(|m| json!([m.exited, m.idx])).collect::<Vec<_>>()}));
+                    }
+                }
+                WorkerOutcome::Crashed { status, stderr, .. } => {
+                    let first = stderr.lines().find(|l| l.contains("panicked")).unwrap_or(stderr.lines().last().unwrap_or("")).to_string();
+                    part.violate("C11:debugger-crashed", format!("[{}] k={k}: {status}: {first}", p.name()), replay);
+                }
+                WorkerOutcome::Timeout { .. } => part.violate("C11:debugger-hung", format!("[{}] k={k}", p.name()), replay),
+            }
+        }
+    }
+    // a breakpoint ON the instruction that ends the process (a Rust function that makes the exit
+    // system call itself): continue from it must report the end, after which nothing is left
+    let quit = "#[inline(never)]\nfn quit(code: i32) -> ! {\n    unsafe { core::arch::asm!(\"syscall\", in(\"rax\") 231, in(\"rdi\") code, options(noreturn)) }\n}\n";
+    let prog = crate::corpus::generate_custom("p_quit", quit, "    a = a * 2 + 1; if a > 0 { emit(a); quit((a % 200) as i32); }");
+    match crate::corpus::build(&prog, &Config::default_cfg()).and_then(|b| prepare(vec![b])) {
+        Err(e) => part.violate("C11:machinery:corpus", e, json!({})),
+        Ok(ps) => {
+            for p in &ps {
+                let n = p.trace.steps.len();
+                let last = p.trace.steps[n - 1].pc;
+                if p.dref.func_at(last.wrapping_sub(p.base)).is_none() {
+                    part.violate("C11:machinery:last-instruction-without-function", format!("{last:#x}"), json!({}));
+                    continue;
+                }
+                let cands = vec![Cand::Addr(last)];
+                for path in [vec![Action::Add(0), Action::Start, Action::Continue, Action::Restart, Action::Continue], vec![Action::Add(0), Action::Start, Action::Continue, Action::Drop], vec![Action::Add(0), Action::Start, Action::Stepi, Action::Drop]] {
+                    let (_, out) = run_session(p, &cands, &path, false);
+                    part.states += path.len() as u64;
+                    part.transitions += path.len() as u64;
+                    part.evaluations += 1;
+                    part.traces_validated += 1;
+                    let replay = json!({"engine":"e2e","prop":"C11","exe":p.built.exe,"cands":cands,"path":path,"history":path.iter().map(|a| a.label(&cands)).collect::<Vec<_>>()});
+                    match out {
+                        WorkerOutcome::Ok(res) => {
+                            let (models, findings) = interpret(p, &cands, &path, &res, &oracles, "C11");
+                            for f in findings {
+                                part.violate(f.sig, f.detail, replay.clone());
+                            }
+                            if !models.get(2).map(|m| m.exited).unwrap_or(false) {
+                                part.violate("C11:breakpoint-on-the-exit-instruction:end-not-reported", format!("[{}] {:?}: states {:?}", p.name(), path.iter().map(|a| a.label(&cands)).collect::<Vec<_>>(), models.iter().map(|m| (m.exited, m.idx)).collect::<Vec<_>>()), replay.clone());
+                            } else {
+                                part.distinct_nontrivial += 1;
+                            }
+                        }
+                        WorkerOutcome::Crashed { status, stderr, .. } => {
+                            let first = stderr.lines().find(|l| l.contains("panicked")).unwrap_or(stderr.lines().last().unwrap_or("")).to_string();
+                            part.violate("C11:debugger-crashed", format!("[{}] {:?}: {status}: {first}", p.name(), path.iter().map(|a| a.label(&cands)).collect::<Vec<_>>()), replay);
+                        }
+                        WorkerOutcome::Timeout { .. } => part.violate("C11:debugger-hung", format!("[{}] breakpoint on the exit instruction", p.name()), replay),
+                    }
+                }
+            }
+        }
+    }
+    part.bounds = json!({"programs": progs.len() + 1, "k": "1..=4"});
+    part
+}
+
 pub fn part_c11(tier: Tier) -> Part {
     use crate::corpus::Stmt;
     let mut part = Part::new("e2e-lifecycle");
